@@ -340,6 +340,29 @@ func vSpLqKey(b byte) *btcec.PrivateKey {
 	return k
 }
 
+// vSpLqParams: like vLqDrawParams (arbitrary amount, blinding key, CSV 60 or 10080) but with FIXED
+// maker/taker keys and payment hash: how the script depends on them is C02's subject, the
+// structure of the spending transaction does not depend on them, and symbolic hex strings make
+// every string-solver query of these entries 10-100 times slower.
+func vSpLqParams() *swap.OpeningParams {
+	csv := uint32(LiquidCsv)
+	if zzverif.Bool("csv_10080") {
+		csv = 10080
+	}
+	kb := zzverif.Bytes("blinding_key", 32)
+	zzverif.Assume(!bytes.Equal(kb, make([]byte, 32)))
+	key, _ := btcec.PrivKeyFromBytes(kb)
+	vLqKey = key.Serialize()
+	return &swap.OpeningParams{
+		TakerPubkey:      "02" + hex.EncodeToString(bytes.Repeat([]byte{0x21}, 32)),
+		MakerPubkey:      "03" + hex.EncodeToString(bytes.Repeat([]byte{0x42}, 32)),
+		ClaimPaymentHash: hex.EncodeToString(bytes.Repeat([]byte{0x63}, 32)),
+		Amount:           zzverif.U64("amount"),
+		CSV:              csv,
+		BlindingKey:      key,
+	}
+}
+
 // vSpLqSpend runs one Create*SpendingTransaction of the real LiquidOnChain on an opening
 // transaction that the real ValidateTx accepts and checks the transaction handed to SendRawTx.
 func vSpLqSpend(kind int, maxOut int) {
@@ -349,18 +372,29 @@ func vSpLqSpend(kind int, maxOut int) {
 	vSpLqInstall(w)
 	lw := vLqNewChainWith(w)
 	w.makeAddress()
-	p := vLqDrawParams()
+	p := vSpLqParams()
 	redeem, expected := vLqExpectedScript(p)
 	openHex := vLqDrawTx(p, expected, maxOut)
 
-	ok, verr := lw.ValidateTx(p, openHex)
-	if verr != nil || !ok {
-		zzverif.Reach("C03.lq_opening_not_validated") // precondition of C03
-		return
-	}
+	// Precondition of C03: the opening transaction is one the validator accepts.  By C01
+	// (H_C01_liquidValidateTx) those are exactly the transactions whose FIRST output with the swap
+	// script unblinds with the announced key to (policy asset, amount) and whose Asset field is
+	// the explicit asset / the honest commitment.  Only these are kept (the other shapes drawn by
+	// vLqDrawTx end here); the real ValidateTx is still run and must accept.
 	k := vLqFirstSwap()
-	zzverif.Assert(k >= 0, "C03.lq_validated_has_swap_output")
-	if k < 0 {
+	if vLqParseFails || k < 0 {
+		zzverif.Assume(false)
+	}
+	so := vLqOuts[k]
+	if so.kind == vLqNoRewind || (so.kind == vLqRewinds && !so.honest) {
+		zzverif.Assume(false)
+	}
+	zzverif.Assume(so.value == p.Amount)
+	zzverif.Assume(bytes.Equal(so.asset, vLqAssetBody))
+	ok, verr := lw.ValidateTx(p, openHex)
+	zzverif.Assert(verr == nil, "C03.lq_precondition_no_error")
+	zzverif.Assert(ok, "C03.lq_precondition_validated")
+	if verr != nil || !ok {
 		return
 	}
 
